@@ -5,12 +5,13 @@
 // its own callbacks into BlockChain.Unspent.CB when it is switched on).
 // After EVERY block connection / disconnection (vhook points chain.commit|parse|undo:after-utxo) and after
 // every on/off switch the harness
-//   (a) evaluates the property's own predicate on the real code: for every address in play
-//       wallet.GetAllUnspent(addr) and the record's total vs a direct Go projection of the unspent set
-//       (all outputs whose script is the address's script and whose value is >= the applied minimum);
-//   (b) feeds the UTXO change (derived from the difference of two snapshots of UnspentDB.HashMap, as a
-//       stream of add / del / undodel / undoadd steps) to the Lean model (oracle_c17) and compares the
-//       model's whole index, its GetAllUnspent, its UTXO set and the Lean Spec projection with the real ones.
+//
+//	(a) evaluates the property's own predicate on the real code: for every address in play
+//	    wallet.GetAllUnspent(addr) and the record's total vs a direct Go projection of the unspent set
+//	    (all outputs whose script is the address's script and whose value is >= the applied minimum);
+//	(b) feeds the UTXO change (derived from the difference of two snapshots of UnspentDB.HashMap, as a
+//	    stream of add / del / undodel / undoadd steps) to the Lean model (oracle_c17) and compares the
+//	    model's whole index, its GetAllUnspent, its UTXO set and the Lean Spec projection with the real ones.
 package main
 
 import (
@@ -157,17 +158,20 @@ func diffEvents(old, nw snap, kind string, rng *vlib.Rng) (evs []string) {
 			}
 			if lost {
 				if kind == "disconnect" && all {
-					dels = append(dels, fmt.Sprintf("undodel %s %d", hex.EncodeToString(id[:8]), len(a.Outs)))
+					dels = append(dels, fmt.Sprintf("undodel %s %d", hex.EncodeToString(id[:]), len(a.Outs)))
 					r.Hit("ev:undodel")
 				} else {
 					if kind == "disconnect" {
+						// UndoBlockTxs deletes whole records only: a record that lost SOME outputs on a disconnect is not something the
+						// derived event vocabulary can express faithfully - the tie would be comparing the model with a guess
 						r.Hit("ev:anomaly-partial-undodel")
+						r.TieFail("derived-event-anomaly", "a block disconnection left a record with only part of its outputs removed: the event stream derived from the UnspentDB snapshots cannot represent what UndoBlockTxs did", map[string]string{"txid": hex.EncodeToString(id[:]), "kind": kind})
 					}
 					m := string(mask)
 					if m == "" {
 						m = "-"
 					}
-					dels = append(dels, fmt.Sprintf("del %s %s", hex.EncodeToString(id[:8]), m))
+					dels = append(dels, fmt.Sprintf("del %s %s", hex.EncodeToString(id[:]), m))
 					r.Hit("ev:del")
 				}
 			}
@@ -185,7 +189,9 @@ func diffEvents(old, nw snap, kind string, rng *vlib.Rng) (evs []string) {
 					r.Hit("ev:add")
 				} else {
 					if kind == "connect" {
+						// commit.do_add stores a NEW record; outputs appearing in an existing record on a connect would be a merge
 						r.Hit("ev:anomaly-merge-on-connect")
+						r.TieFail("derived-event-anomaly", "a block connection added outputs to a record that already existed: the event stream derived from the UnspentDB snapshots cannot represent what commit did", map[string]string{"txid": hex.EncodeToString(id[:]), "kind": kind})
 					}
 					adds = append(adds, recLine("undoadd", b, func(j int) bool { return a == nil || j >= len(a.Outs) || a.Outs[j] == nil }))
 					r.Hit("ev:undoadd")
@@ -241,15 +247,15 @@ func (a *addr) String() string { return fmt.Sprintf("%d/%s", a.Idx, hex.EncodeTo
 func lookalikes(rng *vlib.Rng) [][]byte {
 	p20, p32 := rng.Bytes(20), rng.Bytes(32)
 	return [][]byte{
-		{0x51},                     // OP_TRUE
-		{0x6a, 0x04, 1, 2, 3, 4},   // OP_RETURN data
-		{},                         // empty script
-		append(append([]byte{0x76, 0xa9, 0x14}, p20...), 0x88, 0xad), // P2PKH with wrong last opcode
-		append(append([]byte{0xa9, 0x14}, p20...), 0x88),             // P2SH with wrong last opcode
-		append([]byte{0x00, 0x14}, p20[:19]...),                      // 21 bytes
-		append([]byte{0x52, 0x20}, p32...),                           // witness v2, 32 bytes
-		append([]byte{0x51, 0x14}, p20...),                           // witness v1, 20 bytes
-		append([]byte{0x00, 0x20}, append(p32, 0)...),                // 35 bytes
+		{0x51},                   // OP_TRUE
+		{0x6a, 0x04, 1, 2, 3, 4}, // OP_RETURN data
+		{},                       // empty script
+		append(append([]byte{0x76, 0xa9, 0x14}, p20...), 0x88, 0xad),     // P2PKH with wrong last opcode
+		append(append([]byte{0xa9, 0x14}, p20...), 0x88),                 // P2SH with wrong last opcode
+		append([]byte{0x00, 0x14}, p20[:19]...),                          // 21 bytes
+		append([]byte{0x52, 0x20}, p32...),                               // witness v2, 32 bytes
+		append([]byte{0x51, 0x14}, p20...),                               // witness v1, 20 bytes
+		append([]byte{0x00, 0x20}, append(p32, 0)...),                    // 35 bytes
 		append(append([]byte{0x21}, append([]byte{2}, p32...)...), 0xac), // P2PK
 	}
 }
@@ -274,28 +280,29 @@ func (v view) clone() view {
 }
 
 type world struct {
-	name    string
-	seed    uint64
-	stopAt  int // replay: stop (and report) at this step
-	k       *chainkit.Kit
-	rng     *vlib.Rng
-	min     uint64
-	useMap  uint32
-	on      bool
-	pool    []*addr
-	byKey   map[string]*addr // "idx/uidx" -> addr
-	cold    map[*addr]bool   // addresses never paid by a coinbase
-	odd     [][]byte
-	cur     snap
-	views   map[[32]byte]view
-	blkTxs  map[[32]byte][]*btc.Tx
-	step    int
-	failed  bool
-	quiet   bool // maturity phase: only the whole-index comparison
-	log     []string
-	home    string
-	deep    int
-	compr   bool // UnspentDB keeps compressed records (chain.NewChanOpts.CompressUTXO)
+	corruptDone bool // load.go diskCorrupt: the fixed set of cuts has been run in this world
+	name        string
+	seed        uint64
+	stopAt      int // replay: stop (and report) at this step
+	k           *chainkit.Kit
+	rng         *vlib.Rng
+	min         uint64
+	useMap      uint32
+	on          bool
+	pool        []*addr
+	byKey       map[string]*addr // "idx/uidx" -> addr
+	cold        map[*addr]bool   // addresses never paid by a coinbase
+	odd         [][]byte
+	cur         snap
+	views       map[[32]byte]view
+	blkTxs      map[[32]byte][]*btc.Tx
+	step        int
+	failed      bool
+	quiet       bool // maturity phase: only the whole-index comparison
+	log         []string
+	home        string
+	deep        int
+	compr       bool // UnspentDB keeps compressed records (chain.NewChanOpts.CompressUTXO)
 
 	pendingResidue   string
 	pendingResDetail interface{}
@@ -333,6 +340,7 @@ func (w *world) propFail(key, what string, detail interface{}) {
 	}
 	w.failed = true
 }
+
 // softTie: a model/harness disagreement that is NOT about the index (UnspentDB itself differs from the harness's replay
 // of the active chain — C06's subject). The world ends, the finding is reported (once), but the search for a history in
 // which the INDEX differs from the projection of the real unspent set goes on.
@@ -1344,7 +1352,9 @@ func (w *world) spend(coins []btc.TxPrevOut, outs ...chainkit.OutSpec) *btc.Tx {
 	return tx
 }
 
-func po(tx *btc.Tx, vout int) btc.TxPrevOut { return btc.TxPrevOut{Hash: tx.Hash.Hash, Vout: uint32(vout)} }
+func po(tx *btc.Tx, vout int) btc.TxPrevOut {
+	return btc.TxPrevOut{Hash: tx.Hash.Hash, Vout: uint32(vout)}
+}
 
 // corpus: the boundaries named in the property's quantifier, for one (min, useMapCnt, address type)
 func runCorpus(name string, seed uint64, mn uint64, um uint32, idx int, stopAt int) *world {
@@ -1656,6 +1666,7 @@ func main() {
 	defer o.Close()
 	prepareCfg()
 	r.Assume = []string{
+		"a balance cache written by SaveBalances at block B is only loaded at block B (the folder name carries height, hash suffix, key length, minimum and file version): enabling through LoadBalances is modelled at the disk layer (loadAll) and exercised by the streams disk:save-reload / disk-corrupt, it is not an event of the history theorems",
 		"scripts of the generated blocks are not executed (blocks are marked trusted after the full CheckBlock, like the client's -trust flag): the property is about the index, not about script validity",
 		"addresses = the five forms the index supports (P2PKH, P2SH, P2WPKH, P2WSH, P2TR) for the full predicate (list = projection); every other address value GetAllUnspent accepts (witness versions 0..16 x program lengths 2..40, base58 versions of other networks) is queried too and must only ever be shown outputs paying to its own script (other witness versions have an address but no index by design)",
 		"config changes during a running index build are made synchronously from the load's tick callback, in a goroutine of their own (LockCfg; CFG.AllBalances = ...; Reset(); UnlockCfg as the WebUI does); free-running races between goroutines are not explored",
@@ -1678,6 +1689,7 @@ func main() {
 	checkSip()
 	if os.Getenv("C17_ONLY") != "random" {
 		runStaticUnit()
+		runCollidingDelete()
 	}
 	// corpus first
 	type cs struct {
